@@ -4,7 +4,7 @@ import sympy as sp
 
 from ..cfg import must_dataflow
 from ..facts import AnalysisBroken, walk, strip_targs
-from ..pp import pp, skip
+from ..pp import pp, skip, canon_text as CT
 from ..util import args, assignment, callee, is_call, obj, ref_decl, find_var, root_of, member_path, writes_in, unwrap_view, strip_not, literal_value
 from .. import kalg
 from ..kalg import OutOfFragment, sym
@@ -407,7 +407,7 @@ def rule_predicates(F, R):
         conds.append(pp(ifs[0]["c"][ifs[0]["r"].index("cond")]) if ifs else None)
         okb = any(assignment(x) and pp(assignment(x)[1]) == "((w * value) + b)" and assignment(x)[2] == "+=" for x in g.nodes())
         R.check(okb, "R-C10-3", "hinge predict value@%s" % g.loc(), g.loc(), "prediction = w*value + b", "hinge prediction formula changed")
-    okh = len(sw) == 1 and pp(sw[0]["c"][0]).endswith("m_hinge") and conds == ["(value < m_threshold)", "(value >= m_threshold)"]
+    okh = len(sw) == 1 and pp(sw[0]["c"][0]).endswith("m_hinge") and conds == ["(value < m_threshold)", CT("(value >= m_threshold)")]
     cases = [x for x in hp.nodes() if x["k"] == "case"]
     okh = okh and len(cases) == 1 and "left" in pp(cases[0]["c"][0])
     R.check(okh, "R-C10-3", "hinge predict", hp.loc(), "left hinge acts on value < threshold, right hinge on value >= threshold", "hinge prediction sides changed: %s" % conds)
@@ -415,7 +415,7 @@ def rule_predicates(F, R):
     for g in lambdas_of(F, hs):
         ifs = [x for x in g.nodes() if x["k"] == "if"]
         sconds.append(pp(ifs[0]["c"][ifs[0]["r"].index("cond")]).replace("nano::", "") if ifs else None)
-    want = "(((m_hinge == hinge_type::left) && (value < m_threshold)) || ((m_hinge == hinge_type::right) && (value >= m_threshold)))"
+    want = CT("(((m_hinge == hinge_type::left) && (value < m_threshold)) || ((m_hinge == hinge_type::right) && (value >= m_threshold)))")
     R.check(sconds == [want], "R-C10-3", "hinge split", hs.loc(), "split assigns exactly the samples the prediction acts on", "hinge split predicate differs from the prediction predicate: %s" % sconds)
     hf = [g for g in F.in_file("src/wlearner/hinge.cpp") if g.is_lambda and len(g.params) == 3]
     okf = False
@@ -467,7 +467,7 @@ def rule_predicates(F, R):
             iv = [v for v in g.nodes() if v["k"] == "var" and v["n"] == "index" and v.get("c")]
             okx = len(iv) == 1 and pp(iv[0]["c"][0]).startswith("find") and "hashes" in pp(iv[0]["c"][0])
             ifs = [x for x in g.nodes() if x["k"] == "if"]
-            okx = okx and len(ifs) == 1 and pp(ifs[0]["c"][ifs[0]["r"].index("cond")]) == "(index >= 0)"
+            okx = okx and len(ifs) == 1 and pp(ifs[0]["c"][ifs[0]["r"].index("cond")]) == CT("(index >= 0)")
             okx = okx and any(pp(c) == "op(i, hash2tables(index))" for c in g.calls())
             R.check(okx, "R-C10-3", "process lookup@%s" % g.loc(), g.loc(), "value -> position in hashes -> table via hash2tables, unknown values are skipped", "table lookup chain changed")
     R.floor("R-C10-3/process", n, 2, "lookup lambdas")
@@ -497,7 +497,7 @@ def rule_accumulate_only(F, R):
 
 def rule_missing(F, R):
     n = 0
-    want = {"loop_scalar": ("isfinite(value)", "fvalues(i)"), "loop_sclass": ("(value >= 0)", "value"), "loop_mclass": ("(values(0) >= 0)", "values")}
+    want = {"loop_scalar": ("isfinite(value)", "fvalues(i)"), "loop_sclass": (CT("(value >= 0)"), "value"), "loop_mclass": (CT("(values(0) >= 0)"), "values")}
     seen = set()
     for g in F.functions.values():
         if not g.is_lambda or g.relfile != "include/nano/wlearner/util.h" or len(g.params) != 3:
@@ -718,7 +718,7 @@ def rule_merge(F, R):
             dt = F.one("nano::single_feature_wlearner_t::do_try_merge", "src/wlearner/single.cpp")
             conds = [pp(x["c"][x["r"].index("cond")]) for x in dt.nodes() if x["k"] == "if"]
             adds = [x for x in dt.nodes() if assignment(x) and assignment(x)[2] == "+=" and pp(assignment(x)[0]) == "m_tables.vector()" and pp(assignment(x)[1]) == "tables.vector()"]
-            okd = conds == ["((m_feature == feature) && (m_tables.dims() == tables.dims()))"] and len(adds) == 1
+            okd = conds in (["((m_feature == feature) && (m_tables.dims() == tables.dims()))"], [CT("((m_feature == feature) && (m_tables.dims() == tables.dims()))")], ["((feature == m_feature) && (m_tables.dims() == tables.dims()))"]) and len(adds) == 1
             if okd and fa == "m_feature" and oa is not None and oa["k"] != "this":
                 compared.add("m_feature")
             ok = okd and ta == "m_tables"
